@@ -253,3 +253,31 @@ def test_fixed_F21_rmax_with_an_unreachable_listed_state():
                  {'s': 1.0}, absorbing=['g'], gamma=0.9, lists=(('s', 'u', 'g'), ('a',)))
     res = RMAX(episodes=2, rmax=0.0, num_transition_samples=1, seed=0).train_on(m)
     assert set(res.q_values) == {'s', 'u', 'g'} and res.q_values['s']['a'] == pytest.approx(-1.0)
+
+
+def _two_state_pomdp(r, eps=0.01):
+    from msdm.core.pomdp import TabularPOMDP
+
+    class P(Dict2MDP, TabularPOMDP):
+        def observation_dist(self, a, ns): return DictDistribution({'x': 1.0})
+    return P({0: {'a': {0: 1.0}, 'b': {1: 1.0}}, 1: {'a': {1: 1.0}, 'b': {0: 1.0}}}, r, {0: 0.5, 1: 0.5}, gamma=0.9)
+
+
+def test_fixed_F22_F23_alpha_vector_policy_reads_beliefs_in_every_form():
+    from msdm.algorithms.pointbasedvalueiteration import PointBasedValueIteration
+    from msdm.core.pomdp.tabularpomdp import Belief
+    p = _two_state_pomdp({(0, 'a'): 1.0, (0, 'b'): 0.0, (1, 'a'): -1.0, (1, 'b'): 0.0})
+    pol = PointBasedValueIteration(min_belief_expansions=2, max_belief_expansions=4).plan_on(p).policy
+    sl = tuple(p.state_list)
+    want = [pol.action_value(Belief(sl, (0.9, 0.1)), a) for a in p.action_list]
+    assert [pol.action_value(Belief(sl[::-1], (0.1, 0.9)), a) for a in p.action_list] == pytest.approx(want)
+    assert [pol.action_value(np.array([0.9, 0.1]), a) for a in p.action_list] == pytest.approx(want)
+
+
+def test_fixed_F24_F25_pbvi_horizon_for_constant_rewards_and_large_thresholds():
+    from msdm.algorithms.pointbasedvalueiteration import PointBasedValueIteration
+    const = _two_state_pomdp({(s, a): -1.0 for s in (0, 1) for a in 'ab'})
+    v = PointBasedValueIteration(min_belief_expansions=1, max_belief_expansions=3).plan_on(const).policy.value(DictDistribution({0: .5, 1: .5}))
+    assert -10.0 <= v <= -9.0
+    p = _two_state_pomdp({(0, 'a'): 1.0, (0, 'b'): 0.0, (1, 'a'): -1.0, (1, 'b'): 0.0})
+    PointBasedValueIteration(min_belief_expansions=1, max_belief_expansions=3, value_convergence_epsilon=10.0).plan_on(p)
